@@ -24,7 +24,8 @@ RULE = ("seeded trajectories: T∈2..7 frames × N∈3..10 particles × d∈{2,3
         "(1–3 species) × cutoff factor a × {slow, fast} × selection {none, per-frame masks with a constant count, masks with "
         "varying count (Impl only)} × {no neighbour file, file written by the real Nnearests and read by the real "
         "read_neighbors} × {linear, log} sampling, plus sq4 cases (lag from t, conditional S(q) of the mobile subset); "
-        "decimal-grid inputs; a case is judged only when every cutoff comparison and every rint argument is ≥1e-6 from its "
+        "decimal-grid inputs; plus a TIE STREAM of dyadic trajectories (float-exact) with squared displacements exactly equal "
+        "to (a·diameter)² (hops of length a·σ, a = 0 with arrested particles) judged at margin 0; otherwise a case is judged only when every cutoff comparison and every rint argument is ≥1e-6 from its "
         "flip point; non-trivial = at least one lag has ≥2 origins and the overlap column is not constant 0 or 1 "
         "(sq4: ≥1 origin with a non-empty proper mobile subset); distinct = distinct literal inputs")
 TRUSTED_BASE = [
@@ -149,6 +150,53 @@ def gen_case(rng, variant=None, force=None):
          "xu": [[[fstr(v) for v in p] for p in frm] for frm in xu], "cond": cond, "nn": nn}
     c.update({k: v for k, v in force.items() if k not in ("d", "T", "N", "mode")})
     return c
+
+
+def gen_tie(rng, variant=None):
+    """TIE STREAM: dyadic inputs on which float64 arithmetic is exact, with squared displacements EXACTLY equal to
+    (a·diameter)² (lattice hops of length a·σ; a = 0 with arrested particles).  Pins the conventions themselves:
+    slow is strict <, fast is strict >, at equality a particle is neither.  Judged against the exact model, never skipped."""
+    d = rng.choice([2, 3])
+    T = rng.randint(2, 5)
+    N = rng.randint(3, 6)
+    variant = variant or rng.choice(["lin", "log"])
+    diam = {1: "1", 2: "2", 3: "0.5"}
+    types = [rng.randint(1, 3) for _ in range(N)]
+    a = rng.choice(["0.5", "0.25", "0", "0.5"])
+    fast = rng.random() < 0.5
+    x0 = [[Fraction(rng.randint(0, 63), 8) for _ in range(d)] for _ in range(N)]
+    kinds = ["mover"] + [rng.choice(["hop", "hop", "arrested", "mover"]) for _ in range(N - 1)]
+    hop_t = [rng.randint(1, T - 1) for _ in range(N)]
+    hop_ax = [rng.randrange(d) for _ in range(N)]
+    hop_sg = [rng.choice([-1, 1]) for _ in range(N)]
+    vel = [[Fraction(rng.randint(-3, 3), 8) for _ in range(d)] for _ in range(N)]
+    vel[0][0] = Fraction(rng.choice([1, 2, 3]), 8)     # particle 0 always moves: msd > 0 for every pair
+    xu = []
+    for t in range(T):
+        frm = []
+        for i in range(N):
+            p = list(x0[i])
+            if kinds[i] == "mover":
+                p = [p[c] + vel[i][c] * t for c in range(d)]
+            elif kinds[i] == "hop" and t >= hop_t[i]:
+                p[hop_ax[i]] += hop_sg[i] * F(a) * F(diam[types[i]])
+            frm.append(p)
+        xu.append(frm)
+    r = rng.random()
+    if r < 0.5:
+        cond = None
+    else:
+        cnt = rng.randint(1, N)
+        rows = []
+        for _ in range(1 if variant == "log" else T):
+            idx = {0} | set(rng.sample(range(1, N), cnt - 1))
+            rows.append([1 if i in idx else 0 for i in range(N)])
+        cond = rows
+    return {"variant": variant, "T": T, "N": N, "d": d, "mode": "xu", "motion": "tie", "cell": "orth",
+            "H": [["8" if i == j else "0" for j in range(d)] for i in range(d)], "ppp": [1] * d, "types": types,
+            "diam": diam, "a": a, "fast": fast, "t0": rng.choice([0, 64]), "interval": rng.choice([1, 8]),
+            "dt": rng.choice(["0.5", "0.125", "1"]), "qconst": "2pi", "xu": [[[fstr(v) for v in p] for p in frm] for frm in xu],
+            "cond": cond, "nn": 0, "tie": True}
 
 
 def wrapped(c):
@@ -363,7 +411,12 @@ def judge(run, cases, which):
         if o == "bad-op":
             raise common.Infra("driver rejected op: " + lines[idx.index(k)][:200])
         mc, mt, deg, model = parse_rows(o)
-        if mc < MARGIN or (c["mode"] == "x" and mt < MARGIN) or deg:
+        if c.get("tie"):
+            # tie stream: exact float arithmetic by construction, judged at margin 0 (deg cannot happen: particle 0 moves)
+            run.coverage["tie_cases_judged"] = run.coverage.get("tie_cases_judged", 0) + 1
+            if mc == 0:
+                run.coverage["tie_cases_with_exact_equality"] = run.coverage.get("tie_cases_with_exact_equality", 0) + 1
+        elif mc < MARGIN or (c["mode"] == "x" and mt < MARGIN) or deg:
             skipped += 1
             continue
         if which == "spec" and (not const_count(c)):
@@ -517,7 +570,9 @@ def correspond(run):
     n = 60 if run.tier == "quick" else 1000
     n4 = 25 if run.tier == "quick" else 300
     corpus = common.load_corpus(PROP)
-    cases = [c for c in corpus if c.get("kind") != "sq4"] + [gen_case(run.rng) for _ in range(n)]
+    ntie = 30 if run.tier == "quick" else 400
+    cases = [c for c in corpus if c.get("kind") != "sq4"] + [gen_case(run.rng) for _ in range(n)] \
+        + [gen_tie(run.rng) for _ in range(ntie)]
     cases4 = [c for c in corpus if c.get("kind") == "sq4"] + [gen_sq4(run.rng) for _ in range(n4)]
     dis, mon = judge(run, cases, "impl")
     dis4 = judge_sq4(run, cases4, "impl")
@@ -581,6 +636,7 @@ def search(run, broken):
     for b in broken:
         pool += [c for c in b.get("cases", []) if isinstance(c, dict) and "xu" in c]
     budget = 300 if run.tier == "quick" else 1500
+    pool += [gen_tie(run.rng) for _ in range(60)]
     fresh = [gen_case(run.rng) for _ in range(budget)]
     fresh4 = [gen_sq4(run.rng) for _ in range(budget // 4)]
     # interleave: 4 relaxation cases, 1 sq4 case
